@@ -45,6 +45,7 @@ fn main() {
             "asl" => asl::run(line),
             "nfs" => nfs::run(line),
             "chunk" => stream::run_chunk(line),
+            "gchk" => stream::run_gchunk(line),
             "reader" => stream::run_reader(line),
             "hcobs" => hcobs_fam::run(line),
             "hmem" => hmem::run_hmem(line),
